@@ -3022,3 +3022,147 @@ func E4RunningTotalsFixed(c *core.Ctx, r *core.Report) {
 	r.Count("E4.running-totals-fixed", n)
 	r.Floor("E4.running-totals-fixed", 3)
 }
+
+// E4NextToleranceRecorded: a too-loose line is recorded as the next stretch limit whatever kind of break ends it.
+func E4NextToleranceRecorded(c *core.Ctx, r *core.Report) {
+	r.Rule("E4.next-tolerance-recorded", "when no breaking fits, Linebreak restarts with the smallest adjustment ratio that was refused for being above the limit — mainLoop records it with `next = math.Min(next, ratio)`. 'Relaxed only as far as needed' requires that every refused ratio is a candidate: the conditions under which the recording statement is reached (if conditions, else branches negated) mention nothing but the ratio, the limit and constants — not the kind or penalty of the item. Placed in the else of the deactivation test (`ratio < -1 || forced break`), the ratio of a too-loose line that ends at a forced break is never recorded, the restart jumps to a larger candidate and a breaking with a more stretched line wins")
+	p := c.MustPkg("text")
+	info := p.TypesInfo
+	fd := core.MustFuncDecl(p, "linebreaker.mainLoop")
+	r.Func("text.linebreaker.mainLoop")
+	type atom struct {
+		e   ast.Expr
+		pos bool
+	}
+	var split func(e ast.Expr, pos bool, out *[]atom)
+	split = func(e ast.Expr, pos bool, out *[]atom) {
+		e = core.Unparen(e)
+		if u, ok := e.(*ast.UnaryExpr); ok && u.Op == token.NOT {
+			split(u.X, !pos, out)
+			return
+		}
+		if b, ok := e.(*ast.BinaryExpr); ok && ((b.Op == token.LAND && pos) || (b.Op == token.LOR && !pos)) {
+			split(b.X, pos, out)
+			split(b.Y, pos, out)
+			return
+		}
+		*out = append(*out, atom{e, pos})
+	}
+	// the ratio local and the limit parameter
+	var ratio types.Object
+	ast.Inspect(fd.Body, func(m ast.Node) bool {
+		if as, ok := m.(*ast.AssignStmt); ok && len(as.Lhs) == 1 && len(as.Rhs) == 1 && ratio == nil {
+			if call, ok := core.Unparen(as.Rhs[0]).(*ast.CallExpr); ok {
+				if f := core.CalleeOf(info, call); f != nil && f.Name() == "computeAdjustmentRatio" {
+					if id, ok := as.Lhs[0].(*ast.Ident); ok {
+						ratio = core.ObjOf(info, id)
+					}
+				}
+			}
+		}
+		return true
+	})
+	var limit types.Object
+	for _, f := range fd.Type.Params.List {
+		for _, nm := range f.Names {
+			if b, ok := info.TypeOf(f.Type).Underlying().(*types.Basic); ok && b.Kind() == types.Float64 {
+				limit = info.Defs[nm]
+			}
+		}
+	}
+	if ratio == nil || limit == nil {
+		r.Fail("E4.next-tolerance-recorded", "text.linebreaker.mainLoop|ratio and limit", c.Pos(fd.Pos()), "the adjustment ratio local or the float64 limit parameter was not found")
+		return
+	}
+	n := 0
+	var walk func(nd ast.Node, conds []atom)
+	walk = func(nd ast.Node, conds []atom) {
+		switch x := nd.(type) {
+		case *ast.BlockStmt:
+			for _, s := range x.List {
+				walk(s, conds)
+			}
+		case *ast.IfStmt:
+			var t, f []atom
+			t = append(t, conds...)
+			f = append(f, conds...)
+			split(x.Cond, true, &t)
+			split(x.Cond, false, &f)
+			walk(x.Body, t)
+			if x.Else != nil {
+				walk(x.Else, f)
+			}
+		case *ast.ForStmt:
+			walk(x.Body, nil) // conditions are per iteration
+		case *ast.RangeStmt:
+			walk(x.Body, nil)
+		case *ast.AssignStmt:
+			if len(x.Lhs) != 1 || len(x.Rhs) != 1 {
+				return
+			}
+			name, call := core.MathFunc(info, x.Rhs[0])
+			if name != "Min" || len(call.Args) != 2 {
+				return
+			}
+			hasRatio, hasSelf := false, false
+			for _, a := range call.Args {
+				if id, ok := core.Unparen(a).(*ast.Ident); ok && core.ObjOf(info, id) == ratio {
+					hasRatio = true
+				}
+				if types.ExprString(a) == types.ExprString(x.Lhs[0]) {
+					hasSelf = true
+				}
+			}
+			if !hasRatio || !hasSelf {
+				return
+			}
+			n++
+			key := fmt.Sprintf("text.linebreaker.mainLoop|recording of the next limit #%d depends on the ratio only", n)
+			bad := ""
+			tests := false
+			for _, a := range conds {
+				onlyRatio := true
+				ast.Inspect(a.e, func(k ast.Node) bool {
+					switch y := k.(type) {
+					case *ast.Ident:
+						o := core.ObjOf(info, y)
+						if _, isConst := o.(*types.Const); o != nil && o != ratio && o != limit && !isConst {
+							if _, isPkg := o.(*types.PkgName); !isPkg {
+								if _, isFn := o.(*types.Func); !isFn {
+									onlyRatio = false
+								}
+							}
+						}
+					case *ast.SelectorExpr:
+						if _, isConst := info.Uses[y.Sel].(*types.Const); !isConst {
+							if v, isVar := info.Uses[y.Sel].(*types.Var); isVar && !(v.Pkg() == p.Types && v.Parent() == p.Types.Scope()) {
+								onlyRatio = false
+							}
+						}
+					}
+					return true
+				})
+				if !onlyRatio {
+					neg := ""
+					if !a.pos {
+						neg = "not "
+					}
+					bad = neg + "`" + types.ExprString(a.e) + "`"
+				} else {
+					tests = true
+				}
+			}
+			switch {
+			case bad != "":
+				r.Fail("E4.next-tolerance-recorded", key, c.Pos(x.Pos()), fmt.Sprintf("`%s` is reached only when %s: whether a refused ratio becomes a candidate for the next stretch limit then depends on the kind of the item the line ends at — at a forced break the ratio of a too-loose line is not recorded, the restart takes a larger limit than needed and a breaking with a more stretched line can win", c.Src(x), bad))
+			case !tests:
+				r.Fail("E4.next-tolerance-recorded", key, c.Pos(x.Pos()), "the recording is not under a test of the ratio against the limit")
+			default:
+				r.OK("E4.next-tolerance-recorded", key, c.Pos(x.Pos()), "")
+			}
+		}
+	}
+	walk(fd.Body, nil)
+	r.Count("E4.next-tolerance-recorded", n)
+	r.Floor("E4.next-tolerance-recorded", 1)
+}
